@@ -5,7 +5,7 @@
    number of steps.  Per axis either m = 1 (any halo, e.g. a wall) or lo * hi = 1 (periodic 1/1, Bloch phase / conj phase)
    and the first and last cell widths agree (the source's dual width at cell 0 is w0, not (w0 + w_{N-1})/2). *)
 From Coq Require Import List Arith Lia Field Ring.
-From FV Require Import base.Scalar base.Cplx model.Yee model.YeeExec model.YeeFull proofs.Yee_steps proofs.Yee_tile proofs.Yee_reverse proofs.Yee_full_reverse proofs.Yee_full_props.
+From FV Require Import base.Scalar base.Cplx model.Yee model.YeeExec model.YeeFull proofs.Yee_steps proofs.Yee_tile proofs.Yee_reverse proofs.Yee_full_reverse proofs.Yee_full_props proofs.Yee_lossy_props.
 Import ListNotations.
 Local Open Scope fld_scope.
 
@@ -491,4 +491,103 @@ Section Tile3.
     match n with O => st | S p => iterTF s0 e m p (forward_full K s0 e m st) end.
   Theorem forward_full_tiles_n ie9 im9 n : forall S s, tiles S s -> tiles (iterTF Tscene (TTo ie9) (TTo im9) n S) (iterTF sc ie9 im9 n s).
   Proof. induction n as [|n IH]; intros S s H; [exact H|]. cbn [iterTF]. apply IH, forward_full_tiles, H. Qed.
+  (* ================= the conductive fully anisotropic tiers (model/YeeFull.v forward_lossy) ================= *)
+  Definition TTp (e : option (T9 K * T9 K)) : option (T9 K * T9 K) := match e with Some (T, sg) => Some (TT T, TT sg) | None => None end.
+  (* the update matrices of the tiled material are the tiled update matrices (per-cell algebra; Courant number and impedance are shared) *)
+  Lemma lossy_A_tile etaf T sg : lossy_A K Tscene etaf (TT T) (TT sg) = TT (lossy_A K sc etaf T sg).
+  Proof. reflexivity. Qed.
+  Lemma lossy_B_tile etaf T sg : lossy_B K Tscene etaf (TT T) (TT sg) = TT (lossy_B K sc etaf T sg).
+  Proof. reflexivity. Qed.
+  Lemma tvec1_ext_box avg T u v : (forall f g c l, aeq K Tscene f g -> aeq K Tscene (avg f c l) (avg g c l)) -> veq_box K Tscene u v ->
+    veq_box K Tscene (tvec1 K avg T u) (tvec1 K avg T v).
+  Proof.
+    intros Havg H i j k Hb.
+    assert (L : forall r s, at_loc K avg u r s i j k = at_loc K avg v r s i j k).
+    { intros r s. unfold at_loc. destruct (Nat.eqb r s); [apply (comp_ext K Tscene u v r H i j k Hb) | apply (Havg _ _ s r (comp_ext K Tscene u v s H) i j k Hb)]. }
+    unfold tvec1, trow1; cbn [vx vy vz]. rewrite !L. repeat split.
+  Qed.
+  Lemma tvec1E_tile T v i j k : inB i j k ->
+    vx (tvec1 K (avgE K Tscene) (TT T) (TV v)) i j k = TA (vx (tvec1 K (avgE K sc) T v)) i j k /\
+    vy (tvec1 K (avgE K Tscene) (TT T) (TV v)) i j k = TA (vy (tvec1 K (avgE K sc) T v)) i j k /\
+    vz (tvec1 K (avgE K Tscene) (TT T) (TV v)) i j k = TA (vz (tvec1 K (avgE K sc) T v)) i j k.
+  Proof.
+    intros HB. unfold tvec1, trow1; cbn [vx vy vz]. unfold TT, TR.
+    rewrite !at_loc_tileE by (lia || exact HB). unfold TA. repeat split; cx.
+  Qed.
+  Lemma tvec1H_tile T v i j k : inB i j k ->
+    vx (tvec1 K (avgH K Tscene) (TT T) (TV v)) i j k = TA (vx (tvec1 K (avgH K sc) T v)) i j k /\
+    vy (tvec1 K (avgH K Tscene) (TT T) (TV v)) i j k = TA (vy (tvec1 K (avgH K sc) T v)) i j k /\
+    vz (tvec1 K (avgH K Tscene) (TT T) (TV v)) i j k = TA (vz (tvec1 K (avgH K sc) T v)) i j k.
+  Proof.
+    intros HB. unfold tvec1, trow1; cbn [vx vy vz]. unfold TT, TR.
+    rewrite !at_loc_tileH by (lia || exact HB). unfold TA. repeat split; cx.
+  Qed.
+  Lemma stepE_AB_extB A B J J' E E' H H' : veqB K Tscene J J' -> veqB K Tscene E E' -> veqB K Tscene H H' ->
+    veqB K Tscene (stepE_AB K Tscene A B J E H) (stepE_AB K Tscene A B J' E' H').
+  Proof.
+    intros HJ HE HH i j k Hi Hj Hk. assert (Hb : inBx i j k) by (repeat split; assumption).
+    destruct (tvec1_ext_box (avgE K Tscene) A _ _ (avgE_ext K Tscene) (veqB_veq _ _ HE) i j k Hb) as (a1 & a2 & a3).
+    destruct (tvec1_ext_box (avgE K Tscene) B _ _ (avgE_ext K Tscene) (veqB_veq _ _ (curlH_raw_extB K Tscene H H' HH)) i j k Hb) as (t1 & t2 & t3).
+    destruct (HJ i j k Hi Hj Hk) as (j1 & j2 & j3).
+    unfold stepE_AB, vmask, vadd, vmap2; cbn [vx vy vz]. rewrite a1, a2, a3, t1, t2, t3, j1, j2, j3. repeat split.
+  Qed.
+  Lemma stepH_AB_extB A B J J' E E' H H' : veqB K Tscene J J' -> veqB K Tscene E E' -> veqB K Tscene H H' ->
+    veqB K Tscene (stepH_AB K Tscene A B J E H) (stepH_AB K Tscene A B J' E' H').
+  Proof.
+    intros HJ HE HH i j k Hi Hj Hk. assert (Hb : inBx i j k) by (repeat split; assumption).
+    destruct (tvec1_ext_box (avgH K Tscene) A _ _ (avgH_ext K Tscene) (veqB_veq _ _ HH) i j k Hb) as (a1 & a2 & a3).
+    destruct (tvec1_ext_box (avgH K Tscene) B _ _ (avgH_ext K Tscene) (veqB_veq _ _ (curlE_raw_extB K Tscene E E' HE)) i j k Hb) as (t1 & t2 & t3).
+    destruct (HJ i j k Hi Hj Hk) as (j1 & j2 & j3).
+    unfold stepH_AB, vmask, vadd, vsub, vmap2; cbn [vx vy vz]. rewrite a1, a2, a3, t1, t2, t3, j1, j2, j3. repeat split.
+  Qed.
+  Lemma stepE_AB_tile A B J E H i j k : inB i j k ->
+    vx (stepE_AB K Tscene (TT A) (TT B) (TV J) (TV E) (TV H)) i j k = vx (TV (stepE_AB K sc A B J E H)) i j k /\
+    vy (stepE_AB K Tscene (TT A) (TT B) (TV J) (TV E) (TV H)) i j k = vy (TV (stepE_AB K sc A B J E H)) i j k /\
+    vz (stepE_AB K Tscene (TT A) (TT B) (TV J) (TV E) (TV H)) i j k = vz (TV (stepE_AB K sc A B J E H)) i j k.
+  Proof.
+    intros HB.
+    destruct (tvec1_ext_box (avgE K Tscene) (TT B) _ _ (avgE_ext K Tscene) (veqB_veq _ _ (curlH_tileB H)) i j k (proj1 (inB_inb i j k) HB)) as (a1 & a2 & a3).
+    destruct (tvec1E_tile B (curlH_raw K sc H) i j k HB) as (b1 & b2 & b3).
+    destruct (tvec1E_tile A E i j k HB) as (c1' & c2' & c3').
+    unfold stepE_AB, vmask, vadd, vmap2; cbn [vx vy vz mE Tscene TM m1 m2 m3]. rewrite a1, a2, a3, b1, b2, b3, c1', c2', c3'.
+    unfold TV, TA, TR; cbn [vx vy vz]. repeat split; cx.
+  Qed.
+  Lemma stepH_AB_tile A B J E H i j k : inB i j k ->
+    vx (stepH_AB K Tscene (TT A) (TT B) (TV J) (TV E) (TV H)) i j k = vx (TV (stepH_AB K sc A B J E H)) i j k /\
+    vy (stepH_AB K Tscene (TT A) (TT B) (TV J) (TV E) (TV H)) i j k = vy (TV (stepH_AB K sc A B J E H)) i j k /\
+    vz (stepH_AB K Tscene (TT A) (TT B) (TV J) (TV E) (TV H)) i j k = vz (TV (stepH_AB K sc A B J E H)) i j k.
+  Proof.
+    intros HB.
+    destruct (tvec1_ext_box (avgH K Tscene) (TT B) _ _ (avgH_ext K Tscene) (veqB_veq _ _ (curlE_tileB E)) i j k (proj1 (inB_inb i j k) HB)) as (a1 & a2 & a3).
+    destruct (tvec1H_tile B (curlE_raw K sc E) i j k HB) as (b1 & b2 & b3).
+    destruct (tvec1H_tile A H i j k HB) as (c1' & c2' & c3').
+    unfold stepH_AB, vmask, vadd, vsub, vmap2; cbn [vx vy vz mH Tscene TM m1 m2 m3]. rewrite a1, a2, a3, b1, b2, b3, c1', c2', c3'.
+    unfold TV, TA, TR; cbn [vx vy vz]. repeat split; cx.
+  Qed.
+
+  Theorem forward_lossy_tiles e m S s : tiles S s -> tiles (forward_lossy K Tscene (TTp e) (TTp m) S) (forward_lossy K sc e m s).
+  Proof.
+    intros (HE & HH & HT).
+    destruct (forward_lossy_steps K sc Hpml e m s) as (he & hh & t).
+    destruct (forward_lossy_steps K Tscene eq_refl (TTp e) (TTp m) S) as (he' & hh' & t').
+    assert (A : veqB K Tscene (fE (forward_lossy K Tscene (TTp e) (TTp m) S)) (TV (fE (forward_lossy K sc e m s)))).
+    { rewrite he', he. cbn [injE Tscene]. rewrite HT. destruct e as [[T sg]|]; cbn [TTp tierE].
+      - rewrite lossy_A_tile, lossy_B_tile. cbn [eta0 Tscene].
+        eapply veqB_trans; [apply (stepE_AB_extB _ _ _ (TV (injE K sc (tstep s))) _ (TV (fE s)) _ (TV (fH s))); [apply veqB_refl | exact HE | exact HH]|].
+        intros i j k Hi Hj Hk. apply stepE_AB_tile. repeat split; assumption.
+      - eapply veqB_trans; [apply (stepE_extB K Tscene _ (TV (injE K sc (tstep s))) _ (TV (fE s)) _ (TV (fH s))); [apply veqB_refl | exact HE | exact HH]|].
+        intros i j k Hi Hj Hk. apply stepE_tile. repeat split; assumption. }
+    split; [exact A|]. split.
+    - rewrite hh', hh. cbn [injH Tscene]. rewrite HT. destruct m as [[T sg]|]; cbn [TTp tierH].
+      + rewrite lossy_A_tile, lossy_B_tile. cbn [eta0 Tscene].
+        eapply veqB_trans; [apply (stepH_AB_extB _ _ _ (TV (injH K sc (tstep s))) _ (TV (fE (forward_lossy K sc e (Some (T, sg)) s))) _ (TV (fH s))); [apply veqB_refl | exact A | exact HH]|].
+        intros i j k Hi Hj Hk. apply stepH_AB_tile. repeat split; assumption.
+      + eapply veqB_trans; [apply (stepH_extB K Tscene _ (TV (injH K sc (tstep s))) _ (TV (fE (forward_lossy K sc e None s))) _ (TV (fH s))); [apply veqB_refl | exact A | exact HH]|].
+        intros i j k Hi Hj Hk. apply stepH_tile. repeat split; assumption.
+    - rewrite t', t, HT. reflexivity.
+  Qed.
+  Fixpoint iterTL (s0 : scene K) (e m : option (T9 K * T9 K)) (n : nat) (st : state K) : state K :=
+    match n with O => st | S p => iterTL s0 e m p (forward_lossy K s0 e m st) end.
+  Theorem forward_lossy_tiles_n e m n : forall S s, tiles S s -> tiles (iterTL Tscene (TTp e) (TTp m) n S) (iterTL sc e m n s).
+  Proof. induction n as [|n IH]; intros S s H; [exact H|]. cbn [iterTL]. apply IH, forward_lossy_tiles, H. Qed.
 End Tile3.
